@@ -122,13 +122,13 @@ FAMILIES = [
 
 def plan(prop, tier, seed):
     specs = []
-    n, steps = (16, 450) if tier == "quick" else (96, 1000)
+    n, steps = (16, 450) if tier == "quick" else (80, 900)
     for i in range(n):
         specs.append({"kind": "random", "seed": run_seed(seed, prop, tier, i), "steps": steps, "want_sample": i < 2, "family": (i + seed) % len(FAMILIES)})
     # guided layer: polluter x victim spec pairs per ISA; quick = a seeded slice
     k = 0
     for name in ISAS:
-        parts = 1 if tier == "quick" else 3
+        parts = 1 if tier == "quick" else 2
         for p in range(parts):
             specs.append({"kind": "pairs", "isa": name, "part": p, "parts": parts, "budget": 600 if tier == "quick" else 3000, "seed": run_seed(seed, prop, tier + "-pairs", k)})
             k += 1
